@@ -14,12 +14,14 @@ harness confirms on the real resolver and the real interpreter):
   * `full_fails_inherited_init`     class without own __init__, inherited __init__ hard-codes positionals
   * `full_fails_conditional_crash`  AttributeError inside group_parameters → fallback resolver
   * `full_fails_kwargs_unused`      **kwargs taken and never forwarded (every name accepted; `WfProg` demands a use)
+`C13_exact_syntactic` is the statement under two decidable hypotheses on the program text, `WfProg` and
+`noPopClash`; `C13_exact` is more general (any program on which the resolver does not raise).
 `C13_exact` is the statement under the decidable hypothesis `WfProg` (acyclic; every body that takes
 **kwargs is pops-then-one-forwarding-call, no `get`, no popped name hard-coded, hard-coded positionals
 fit; a class without own __init__ inherits one whose super() call hard-codes no more positionals than it
 has parameters) and "the AST resolver does not hit the AttributeError" (`resolveOut P c ≠ .crash`).
 -/
-import Jap.Lemmas.ResolverSig
+import Jap.Lemmas.ResolverClean
 
 namespace Jap.Props.C13
 open Jap.Resolver
@@ -52,6 +54,31 @@ theorem C13_exact (P : Prog) (c : CId) (hW : WfProg P = true) (hc : c.valid P = 
     simp only
     exact frame_exact hW n (P.bound) c.frame hmu hg P.bound P.bound hmu hmu R hR
 
+/-- A purely syntactic, decidable sufficient condition for "the resolver does not raise": wherever a
+    popped name is also defined elsewhere in the program, the defaults agree (`noPopClash`). -/
+theorem C13_no_crash (P : Prog) (c : CId) (hW : WfProg P = true) (hC : noPopClash P = true) :
+    resolveOut P c ≠ .crash :=
+  (clean_ok hW hC P.bound c.frame).1
+
+/-- `C13_exact` with hypotheses on the program text only. -/
+theorem C13_exact_syntactic (P : Prog) (c : CId) (hW : WfProg P = true) (hC : noPopClash P = true)
+    (hc : c.valid P = true) (n : String) :
+    n ∈ names (resolve P c) ↔ accepts P c n = true :=
+  C13_exact P c hW hc (C13_no_crash P c hW hC) n
+
+/-- On such programs every offered parameter IS a definition of the program — name, type, default and
+    kind of the signature (or pop) it comes from, no `Conditional` — and no name is offered twice. -/
+theorem C13_keeps_sig_strict (P : Prog) (c : CId) (hW : WfProg P = true) (hC : noPopClash P = true) :
+    (names (resolve P c)).Nodup ∧ ∀ p ∈ resolve P c, ∃ q ∈ P.defs, sameSig p q := by
+  unfold resolve
+  cases hR : resolveOut P c with
+  | crash => simp [names]
+  | nofuel => simp [names]
+  | ok R =>
+    simp only
+    have := (clean_ok hW hC P.bound c.frame).2 R hR
+    exact ⟨this.1, fun p hp => (this.2 p hp).2⟩
+
 /-- instantiating with an offered parameter never raises unexpected-keyword (one direction, named) -/
 theorem C13_offered_accepted (P : Prog) (c : CId) (hW : WfProg P = true) (hc : c.valid P = true)
     (p : Param) (hp : p ∈ resolve P c) : accepts P c p.name = true := by
@@ -79,6 +106,27 @@ theorem C13_hardcoded_not_offered (P : Prog) (c : CId) (wh : Where) (body : Call
     | succ f =>
       rw [hbd] at hR
       exact hardcoded_not_in hb hR hown huses
+
+/-- Nothing is invented, whatever the body looks like (conditional chains included, no well-formedness
+    needed): an offered name is a parameter of the visited signature, or is read by a `kwargs.pop/get`
+    of the body, or is offered by the callee of one of its forwarding calls that does not hard-code it. -/
+theorem C13_offered_has_source (P : Prog) (c : CId) (wh : Where) (body : Callable) (n : String)
+    (hb : frameBody P c.frame = some (wh, body)) (hn : n ∈ names (resolve P c)) :
+    n ∈ names body.params ∨ (∃ u ∈ liveUses body.uses, ∃ p ∈ useDefs u, p.name = n) ∨
+      ∃ u ∈ liveUses body.uses, u.isForward = true ∧ n ∉ u.given ∧
+        ∃ fr' R', subFrame P wh u = some fr' ∧ resolveF (P.bound - 1) P fr' = .ok R' ∧ n ∈ names R' := by
+  unfold resolve at hn
+  cases hR : resolveOut P c with
+  | crash => simp [hR, names] at hn
+  | nofuel => simp [hR, names] at hn
+  | ok R =>
+    simp only [hR] at hn
+    unfold resolveOut at hR
+    cases hbd : P.bound with
+    | zero => rw [hbd] at hR; simp [resolveF] at hR
+    | succ f =>
+      rw [hbd] at hR
+      simpa using offered_source hb hR hn
 
 /-- Every offered parameter carries name, type, default and kind of a definition of the program
     (a signature parameter or a `kwargs.pop/get` of some callable) unless the resolver marked it
@@ -130,6 +178,7 @@ def diamond : Prog := ⟨[
   klass (some ⟨[pk "a" "int" "3"], true, [al (.pop "z" (dv "9")), al (.superCall none 0 [])]⟩) [1, 2, 0]]⟩
 
 example : WfProg diamond = true := by decide
+example : noPopClash diamond = true := by decide
 example : resolveOut diamond (.entry 3) ≠ .crash := by decide
 /-- offered: own `a`, the pop `z`, `b` with the type of K1 (first in the MRO), `c`; `d` is hard-coded by K2 -/
 example : resolve diamond (.entry 3) =
@@ -189,7 +238,7 @@ def progCrash : Prog := ⟨[base,
   klass (some ⟨[], true, [al (.pop "z" (dv "7")), al (.superCall none 0 [])]⟩) [1, 0]]⟩
 
 theorem full_fails_conditional_crash :
-    WfProg progCrash = true ∧ resolveOut progCrash (.entry 2) = .crash ∧
+    WfProg progCrash = true ∧ noPopClash progCrash = false ∧ resolveOut progCrash (.entry 2) = .crash ∧
     ¬ ("z" ∈ names (resolve progCrash (.entry 2)) ↔ accepts progCrash (.entry 2) "z" = true) := by decide
 
 /-- `def __init__(self, x: int = 1, **kwargs): pass` — every name is accepted, none can be offered -/
